@@ -2559,6 +2559,7 @@ char *_GD_ParseFragment(FILE *restrict fp, DIRFILE *D, struct parser_state *p,
 
     if (n_cols == 0) {/* a blank line */
       free(outstring);
+      free(instring);
       continue;
     }
     else if (n_cols < 2) /* any valid, non-blank line has at least two tokens */
@@ -2652,11 +2653,10 @@ char *_GD_ParseFragment(FILE *restrict fp, DIRFILE *D, struct parser_state *p,
         NULL);
 
   /* restore a saved error, if we have one */
-  if (!D->error && saved_error) {
+  if (!D->error && saved_error)
     _GD_SetError(D, GD_E_FORMAT, saved_suberror, D->fragment[me].cname,
         saved_line, saved_token);
-    free(saved_token);
-  }
+  free(saved_token);
 
   /* Set reference */
   if (!D->error) {
